@@ -273,6 +273,9 @@ func checkC19(c C19Case, o *vcore.Obs) error {
 	o.Class("kind-" + c.Kind)
 	o.ClassIf(len(c.Stored) == 0, "stored-empty")
 	o.ClassIf(len(c.Input) == 0, "input-empty")
+	for _, st := range c.Stored {
+		o.ClassIf(len(st.Val) == 0, "stored-empty-value")
+	}
 	if len(c.Input) > 0 && (c.Kind == "int4" || c.Kind == "int8") {
 		z := true
 		for _, b := range c.Input[0].Key {
@@ -432,6 +435,29 @@ func genC19(t *rapid.T) C19Case {
 				}
 				c.Input = append(c.Input, item)
 			}
+		}
+	}
+	// a stored key with an EMPTY value (legal in LMDB): always also in the input, so that its fate is decided
+	// by a merge decision (the value-keyed Clean lookup needs unique stored values)
+	if c.Strategy != "emptyput" && len(c.Stored) > 0 && rapid.IntRange(0, 2).Draw(t, "emptystored") == 0 {
+		si := rapid.IntRange(0, len(c.Stored)-1).Draw(t, "emptyidx")
+		c.Stored[si].Val = model.Bytes{}
+		found := false
+		for ii := range c.Input {
+			if bytes.Equal(c.Input[ii].Key, c.Stored[si].Key) {
+				found = true
+				if bytes.Equal(c.Input[ii].Val, c.Stored[si].Val) {
+					c.Input[ii].Val = model.Bytes("nonempty")
+				}
+			}
+		}
+		if !found {
+			it := ScriptItem{Key: c.Stored[si].Key, Merge: rapid.SampledFrom([]string{decKeep, decReplace, decDelete}).Draw(t, "emerge")}
+			if it.Merge == decReplace {
+				it.Val = model.Bytes("was-empty")
+			}
+			c.Input = append(c.Input, it)
+			sort.SliceStable(c.Input, func(i, j int) bool { return keyLess(c.Kind, c.Input[i].Key, c.Input[j].Key) })
 		}
 	}
 	if c.Strategy == "update" && len(c.Input) > 1 && rapid.Bool().Draw(t, "shuffle") {
